@@ -180,6 +180,22 @@ func (P *Program) registerVH() {
 		in.constrainStr(t)
 		return t
 	})
+	P.reg(VH+".NondetText", func(fr *frame, args []value) value {
+		in := fr.in
+		t := in.newNondet(in.goStr(args[0], "nondet name"), "text", smt.Str)
+		in.constrainStr(t)
+		in.assumeSilently(in.C.Not(in.C.IsDec(t)))
+		return t
+	})
+	P.reg(VH+".NondetHuge", func(fr *frame, args []value) value {
+		in := fr.in
+		c := in.C
+		n := in.newNondet(in.goStr(args[0], "nondet name"), "huge", smt.Int)
+		lo := c.IntConst(new(big.Int).Neg(bigPow2(63)))
+		hi := c.IntConst(new(big.Int).Sub(bigPow2(63), big.NewInt(1)))
+		in.assumeSilently(c.Or(c.ILt(n, lo), c.ILt(hi, n)))
+		return c.StrDec(n)
+	})
 	P.reg(VH+".NondetAtom", func(fr *frame, args []value) value {
 		in := fr.in
 		c := in.C
